@@ -78,6 +78,23 @@ pub fn run(max_c: u64, thorough: bool) -> CapResult {
         // keys agreeing in all the bits a table of up to 2^20 bins looks at
         for j in 0..9u32 {
             m.insert(Key::new(3 + (j << 20), 0), Val::new(j as i64), &g);
+            if j == 6 {
+                // replacing the value of the last of seven colliding entries meets no overfull bin
+                m.insert(Key::new(3 + (j << 20), 1), Val::new(70), &g);
+            }
+            if (j == 6 || j == 7) && n >= 16 {
+                // seven, then eight colliding entries: the bin is not overfull yet (the insert that
+                // finds eight entries in front of it is the first to act)
+                let d = crate::dump::canon(&m.verif_dump(&g));
+                let trees = d.table.as_ref().map(|t| t.bins.iter().filter(|b| matches!(b, crate::dump::CBin::Tree { .. })).count()).unwrap_or(0);
+                r.evaluations += 1;
+                if table_len(&m) != n || trees != 0 {
+                    r.failures.push(format!(
+                        "with_capacity({}) gave {} bins; {} keys colliding in one bin (entry count below the threshold, no overfull bin met) left a table of {} bins with {} tree bin(s)",
+                        c, n, j + 1, table_len(&m), trees
+                    ));
+                }
+            }
         }
         let n2 = table_len(&m);
         let d = crate::dump::canon(&m.verif_dump(&g));
